@@ -414,6 +414,40 @@ def strip_for_spec(ans):
     return "ok " + "|".join(out)
 
 
+def spec_vs_impl(res, drv, case, toks):
+    """(E30 answer, implementation answer reduced to what E30 speaks about) for one history on a fresh handler"""
+    scratch = hlib.Result("C11", "quick", 0)
+    model_toks, ans = run_history(scratch, case["initial"], case["sub"], case["comm"], case["events"], toks)
+    sp = hlib.strip_branch(drv.run([f"gemctrl spec {case['initial']} {case['sub']} " + (",".join(model_toks) or "-")])[0])
+    return sp, strip_for_spec(ans)
+
+
+def minimise(res, drv, case, toks, k):
+    """shortest sub-history on which implementation and E30 table still differ (delta debugging on fresh handlers)"""
+    # step k of the answer is the k-th model input (step 0 = constructor); harness-only tokens do not count
+    cut, n = 0, 0
+    for i, t in enumerate(toks):
+        if t != "linkup":
+            n += 1
+        if n >= k:
+            cut = i + 1
+            break
+    prefix = toks[:cut] if cut else list(toks)
+
+    def fails(cand):
+        try:
+            sp, got = spec_vs_impl(res, drv, case, cand)
+        except Stuck:
+            return False
+        return sp != got
+    try:
+        if not fails(prefix):
+            return list(toks)
+        return hlib.ddmin(prefix, fails) if len(prefix) > 1 else prefix
+    except Exception:  # noqa: BLE001
+        return prefix
+
+
 def private_driver():
     import shutil
     import tempfile
@@ -559,6 +593,7 @@ def main():
             jobs.append((ini, sub, comm, events, toks))
 
     cases, lines, answers = [], [], []
+    full_history = {}
     t_start = time.time()
     for ini, sub, comm, events, toks in jobs:
         if isinstance(toks, tuple):
@@ -573,6 +608,7 @@ def main():
             res.disagree("harness wait ran out (check broken or implementation wedged)", {"initial": ini, "sub": sub, "history": toks[:30]}, "completes", str(exc))
             continue
         case = {"initial": ini, "sub": sub, "comm": comm, "events": events, "history": toks if len(toks) < 60 else toks[:60] + ["…"]}
+        full_history[id(case)] = list(toks)
         cases.append(case)
         lines.append(f"gemctrl run {ini} {sub} " + (",".join(model_toks) or "-"))
         answers.append(ans)
@@ -589,6 +625,7 @@ def main():
     if drv.available and lines:
         spec_lines = ["gemctrl spec" + ln[len("gemctrl run"):] for ln in lines]
         spec_out = drv.run(spec_lines)
+        n_min = 0
         for case, ln, sp, im in zip(cases, spec_lines, spec_out, answers):
             sp = hlib.strip_branch(sp)
             if "linklost" in ln:
@@ -596,8 +633,13 @@ def main():
             got = strip_for_spec(im)
             if sp != got:
                 k = next((i for i, (x, y) in enumerate(zip(sp.split("|"), got.split("|"))) if x != y), None)
+                hist = full_history[id(case)]
+                if n_min < 3 and k is not None:
+                    n_min += 1
+                    hist = minimise(res, drv, case, hist, k)
+                    sp, got = spec_vs_impl(res, drv, case, hist)
                 res.violate("c11-e30", "control state / acknowledge code / collection events / SVID 1002 differ from the E30 table",
-                            dict(case, first_difference_at_step=k), sp[:600], got[:600])
+                            dict(case, history=hist), sp[:600], got[:600])
     res.dump(a.out)
     os._exit(0)
 
